@@ -69,3 +69,23 @@ let parse (argv : string list) (ron : schema option option) (custom : json optio
       | "--no-bump-context" -> { a with b_no_context = true }
       | _ -> raise (Unsupported arg))
     empty argv
+
+(* ---- zerv flow ---- *)
+let parse_flow (argv : string list) (ron : schema option option) (rules : rule list option) : fargs =
+  let label = ref None and num = ref None and mode = ref None and hlen = ref (n_of_int 5) in
+  let rest =
+    List.filter
+      (fun arg ->
+        let name, v = split_eq arg in
+        match name with
+        | "--pre-release-label" ->
+          label := Some (match v with Some "alpha" -> Alpha | Some "beta" -> Beta | Some "rc" -> Rc | _ -> raise (Unsupported arg));
+          false
+        | "--pre-release-num" -> num := Some (n_of_dec (Option.get v)); false
+        | "--post-mode" -> mode := Some (match v with Some "tag" -> ModeTag | Some "commit" -> ModeCommit | _ -> raise (Unsupported arg)); false
+        | "--hash-branch-len" -> hlen := n_of_dec (Option.get v); false
+        | "--branch-rules" -> false
+        | _ -> true)
+      argv
+  in
+  { f_base = parse rest ron None; f_label = !label; f_num = !num; f_mode = !mode; f_rules = rules; f_hash_len = !hlen }
